@@ -182,7 +182,11 @@ def generate(trees: dict, prefix: str) -> str:
     """Coq source defining <prefix><name> : list string for every pin."""
     out = ["From Coq Require Import List String.", "Import ListNotations.", "Open Scope string_scope.", ""]
     for name, (mod, qual) in PINS.items():
-        fn = find(trees[mod], qual)
         out.append(f"(* {mod}: {qual} *)")
-        out.append(f"Definition {prefix}{name} : list string :=\n  " + coq_list(flatten(fn)) + ".\n")
+        try:
+            items = flatten(find(trees[mod], qual))
+        except PinError as e:
+            # poison this pin only: its tie fails, and with it exactly the properties whose models transcribe the function
+            items = [esc(f"<translator: {e}>")]
+        out.append(f"Definition {prefix}{name} : list string :=\n  " + coq_list(items) + ".\n")
     return "\n".join(out)
